@@ -468,7 +468,12 @@ def external_module(it, dotted):
                  zip_longest=Builtin('itertools.zip_longest', lambda it, *srcs: lib.ZipLongestSource(it, list(srcs))))
     elif dotted == 'functools':
         a['reduce'] = Builtin('functools.reduce', _reduce)
-        a['partial'] = Builtin('functools.partial', lambda it, *x, **k: lib._unsup('functools.partial'))
+        def _partial(it, f, *pa, **pk):
+            # functools.partial(f, *pa, **pk): a callable that calls f with the frozen arguments first
+            p = Builtin('partial', lambda it2, *x, **k: it2.call(f, list(pa) + list(x), dict(pk, **k)))
+            p.partial_of = (f, pa, pk)
+            return p
+        a['partial'] = Builtin('functools.partial', _partial)
     elif dotted == 'logging':
         for n in ('error', 'info', 'warning', 'exception', 'debug'):
             a[n] = Builtin('logging.' + n, _noop)
@@ -483,6 +488,13 @@ def external_module(it, dotted):
     elif dotted == 'datetime':
         for n in ('datetime', 'date', 'time', 'timedelta', 'timezone'):
             a[n] = T(n)
+
+        def _unbound_strftime(it_, obj, *fa, **fk):
+            # datetime.<type>.strftime(obj, format) / (obj, format=...): the bound call on obj
+            fa = list(fa) + ([fk.pop('format')] if 'format' in fk else [])
+            return it_.call(lib.getattr_(it_, obj, 'strftime'), fa, fk)
+        for n in ('datetime', 'date', 'time'):
+            a[n].attrs_static = {'strftime': Builtin(n + '.strftime', _unbound_strftime)}
 
         def date_ctor(it_, *args):
             # only what a module-level platform probe needs: datetime.date(1, 1, 1).strftime('%04Y').  The answer is that
